@@ -20,6 +20,8 @@ MUTATORS = {'set_administration', 'set_dosing_regimen', 'set_outputs',
             'fix_parameters', 'copy'}
 OBSERVERS = {"simulate", "observe"}
 ALWAYS_OBSERVED = True
+BUDGET = {'quick': {'runs': 2000, 'wall': 70},
+          'thorough': {'runs': 100000, 'wall': 1500}}
 
 _INFO = {}
 
